@@ -20,9 +20,11 @@ import (
 // outcomes as the real run. It has no pool, no clone/restore, no savepoints.
 
 type mval struct {
-	s   string
-	c   []string
-	isC bool
+	s     string
+	c     []string
+	isC   bool // pointer-receiver Cloner
+	isV   bool // value-receiver Cloner
+	isNil bool
 }
 
 type mstore map[string]mval
@@ -66,6 +68,10 @@ func (st mstore) render() string {
 		v := st[k]
 		if v.isC {
 			b.WriteString("C{" + strings.Join(v.c, ",") + "}")
+		} else if v.isV {
+			b.WriteString("V{" + strings.Join(v.c, ",") + "}")
+		} else if v.isNil {
+			b.WriteString("nil")
 		} else {
 			b.WriteString(kernel.Render(v.s))
 		}
@@ -139,6 +145,8 @@ func RunModel(g *gen.Grammar, c *Call, withState bool) *Model {
 	for _, kv := range c.Opts.InitState {
 		if strings.HasPrefix(kv[1], "C:") {
 			st = st.with(kv[0], mval{isC: true, c: strings.Split(kv[1][2:], ",")})
+		} else if strings.HasPrefix(kv[1], "V:") {
+			st = st.with(kv[0], mval{isV: true, c: strings.Split(kv[1][2:], ",")})
 		} else {
 			st = st.with(kv[0], mval{s: kv[1]})
 		}
@@ -269,6 +277,16 @@ func (m *Model) apply(st mstore, ops []kernel.StateOp) mstore {
 				st = st.with(op.Key, mval{isC: true, c: append(append([]string(nil), v.c...), op.Val)})
 			} else {
 				st = st.with(op.Key, mval{isC: true, c: []string{op.Val}})
+			}
+		case "nil":
+			st = st.with(op.Key, mval{isNil: true})
+		case "vmut":
+			if v, ok := st[op.Key]; ok && v.isV && len(v.c) > 0 {
+				c := append([]string(nil), v.c...)
+				c[0] += "+" + op.Val
+				st = st.with(op.Key, mval{isV: true, c: c})
+			} else {
+				st = st.with(op.Key, mval{isV: true, c: []string{op.Val}})
 			}
 		}
 	}
